@@ -215,8 +215,24 @@ def html_unescape(I, s):
     t = s.t
     if z3.is_app(t) and t.decl().name() == 'html_escape':
         return SymVal(t.arg(0), 'str')
-    x = z3.String('x!unesc')
-    I.assume(z3.ForAll([x], _unesc_fn(_esc_fn(x)) == x))
+    # the assumed law, instantiated for every escaped text that occurs on this path (quantifier-free: a quantified axiom leaves the
+    # solver without an answer exactly when a counterexample is asked for)
+    seen, insts = set(), []
+    def walk(e):
+        if e.get_id() in seen:
+            return
+        seen.add(e.get_id())
+        if z3.is_app(e):
+            if e.decl().name() == 'html_escape':
+                insts.append(e)
+            for ch in e.children():
+                walk(ch)
+    walk(t)
+    for c_ in I.pc:
+        if z3.is_expr(c_):
+            walk(c_)
+    for e in insts:
+        I.assume(_unesc_fn(e) == e.arg(0))
     return SymVal(_unesc_fn(t), 'str')
 
 
